@@ -9,12 +9,6 @@ def parseAttrV (j : Json) (k : String) : R AttrV := do
   | "nonstr" => return .nonStr
   | _ => return .absent
 
-def optStrList (j : Json) (k : String) : R (Option (List String)) :=
-  match j.getObjVal? k with
-  | .ok .null => pure none
-  | .ok v => do return some (← asStrList v)
-  | .error _ => pure none
-
 def parseLink (j : Json) : R Link := do
   match ← str j "k" with
   | "absent" => return .absent
